@@ -999,16 +999,26 @@ func verifHarness_C10_retained_records() {
 		verifAssume(fw.WriteBlock(rec, 1, w.Bytes()) == nil)
 		data = append(data, rec.all()...)
 	}
-	closeFirst := verifChoice("closeFirstBank", 2) == 1
+	if verifChoice("priorAbortedRead", 2) == 1 {
+		// an earlier reader of the same file stopped at its first record: its
+		// callback released the bank it was handed and returned its own error
+		perr := ReadFile(&verifReader{buf: data}, verifRec10{}, func(val unsafe.Pointer, rb *ResourceBank) error {
+			rb.Close()
+			return errVerifCallback
+		})
+		verifAssert(perr == errVerifCallback, "C10:aborted-read-returns-the-callback-error")
+	}
+	// the owner of one record gives its bank back as soon as the next record
+	// arrives: it may be recycled for the record after; the others must be
+	// unaffected
+	closed := verifChoice("closeBank", 3) - 1 // -1: none, 0: the first, 1: the second
 	var got []verifRec10
 	var banks []*ResourceBank
 	err = ReadFile(&verifReader{buf: data}, verifRec10{}, func(val unsafe.Pointer, rb *ResourceBank) error {
 		got = append(got, *(*verifRec10)(val))
 		banks = append(banks, rb)
-		if closeFirst && len(banks) == 2 {
-			// the first record's owner gives its bank back: it may be recycled
-			// for record 3; records 2 and 3 must be unaffected
-			banks[0].Close()
+		if closed >= 0 && len(banks) == closed+2 {
+			banks[closed].Close()
 		}
 		return nil
 	})
@@ -1017,11 +1027,10 @@ func verifHarness_C10_retained_records() {
 	if err != nil || len(got) != 3 {
 		return
 	}
-	first := 0
-	if closeFirst {
-		first = 1
-	}
-	for i := first; i < 3; i++ {
+	for i := 0; i < 3; i++ {
+		if i == closed {
+			continue
+		}
 		g, w := &got[i], &want[i]
 		ok := verifAnd(verifStrEq(g.S, w.S), refBytesEq(g.B, w.B))
 		if w.P == nil {
@@ -1356,6 +1365,83 @@ func verifHarness_C10_bank_step() {
 		verifAssert(len(rb.sData) == 0 && verifStrEq(liveStr, string(liveCopy)), "C10:close-does-not-rewrite-strings")
 		verifReach("close")
 	}
+}
+
+// A history of bank operations from a fresh bank: six allocations over four
+// types in any order (the bank meets types for the first time, its type table
+// grows), then optionally Close and two more. Every block handed out within one
+// life of the bank is zeroed, inside an array of its own type and disjoint from
+// every other live block; any bookkeeping the bank keeps across calls (caches,
+// cursors) has to survive the table growing and the bank being reset.
+var verifFloat64Type = reflect.TypeOf(float64(0))
+
+func verifHarness_C10_bank_history() {
+	verifAllocMax(4096)
+	verifUnwind(200)
+	rb := &ResourceBank{}
+	typs := []reflectType{int64Type, stringType, boolType, verifFloat64Type}
+	type blk struct {
+		p    unsafe.Pointer
+		size int
+	}
+	var live []blk
+	alloc := func(tag string, k int) {
+		typ := typs[k]
+		p := rb.Alloc(typ)
+		size := int(typ.Size())
+		zero := true
+		for _, b := range unsafe.Slice((*byte)(p), size) {
+			zero = verifAnd(zero, b == 0)
+		}
+		verifAssert(zero, "C10:allocated-block-is-zeroed")
+		for _, o := range live {
+			if verifSymbolic() {
+				if verifSameObject(p, o.p) {
+					d := int(uintptr(p) - uintptr(o.p))
+					verifAssert(d >= o.size || -d >= size, "C10:live-blocks-are-disjoint")
+				}
+			} else {
+				a, b := uintptr(p), uintptr(o.p)
+				verifAssert(a+uintptr(size) <= b || b+uintptr(o.size) <= a, "C10:live-blocks-are-disjoint")
+			}
+		}
+		// each block carries its own mark (outside the pointer word of a string
+		// header); a block handed out twice loses the earlier one
+		live = append(live, blk{p, size})
+		*(*byte)(unsafe.Add(p, verifMarkOff(size))) = byte(len(live))
+	}
+	marksIntact := func() bool {
+		ok := true
+		for i, o := range live {
+			ok = verifAnd(ok, *(*byte)(unsafe.Add(o.p, verifMarkOff(o.size))) == byte(i+1))
+		}
+		return ok
+	}
+	// the first life: the order of first meetings decides how the table grows
+	seq := [][]int{
+		{0, 1, 0, 3, 0, 1, 0}, {0, 1, 2, 3, 0, 1, 2}, {1, 1, 0, 0, 3, 3, 2}, {3, 0, 3, 1, 3, 2, 3},
+		{0, 0, 0, 1, 0, 2, 0}, {2, 3, 2, 3, 1, 0, 2}, {1, 0, 1, 0, 1, 3, 1}, {0, 3, 1, 2, 2, 1, 3},
+	}[verifChoice("order", 8)]
+	for i, k := range seq {
+		alloc("a"+string(rune('0'+i)), k)
+	}
+	verifAssert(marksIntact(), "C10:no-block-handed-out-twice-in-one-life")
+	if verifChoice("close", 2) == 1 {
+		rb.Close()
+		live = nil
+		for i, k := range seq[:4] {
+			alloc("b"+string(rune('0'+i)), k)
+		}
+		verifAssert(marksIntact(), "C10:no-block-handed-out-twice-in-one-life")
+	}
+	verifReach("end")
+}
+
+func verifMarkOff(size int) int {
+	if size >= 16 {
+		return 8
+	}
+	return 0
 }
 
 // ---------------------------------------------------------------- C01 record sequences
